@@ -18,6 +18,7 @@ type Clause struct {
 	Src   string
 	Node  *rNode
 	On    string // "" normal return; "panic"; "any"
+	Only  string // non-empty: the clause is checked in this variant only (a bounded shape; labelled bounded)
 	Line  int
 }
 
@@ -65,6 +66,8 @@ type ContractSet struct {
 
 func (cs *ContractSet) lookup(fn string) *Contract { return cs.fns[fn] }
 
+var inVariantRe = regexp.MustCompile(`^in ([A-Za-z0-9_]+):`)
+
 var tagRe = regexp.MustCompile(`^\[([A-Z0-9,]+):([A-Za-z0-9_.$-]+)\]\s*`)
 
 func loadContracts(path string) (*ContractSet, error) {
@@ -110,6 +113,10 @@ func loadContracts(path string) (*ContractSet, error) {
 			cl.Props = strings.Split(m[1], ",")
 			cl.Name = m[2]
 			rest = rest[len(m[0]):]
+		}
+		if m := inVariantRe.FindStringSubmatch(rest); m != nil {
+			cl.Only = m[1]
+			rest = strings.TrimSpace(rest[len(m[0]):])
 		}
 		if strings.HasPrefix(rest, "panic:") {
 			cl.On = "panic"
